@@ -78,7 +78,8 @@ def gen_claims(rng: Rng):
         if r < 0.35:
             continue
         if r < 0.6:
-            v = rng.pick([1700000000, 0, 1, 2 ** 33, 1700000000.5, -5])
+            # any JSON value may sit under these names; encode / decode carries it faithfully (judging it is validation's business)
+            v = rng.pick([1700000000, 0, 1, 2 ** 33, 1700000000.5, -5, None, None, "1700000000", True, [1700000000], {"t": 1}, ""])
             claims[name] = v
             expected[name] = v
         else:
